@@ -228,7 +228,15 @@ fn describe_point(tl: &Timeline, cp: &crash::CrashPoint, c: &crash::Choice) -> S
 }
 
 fn enumerate(w: &mut World, prop: &str, seed: u64, extra: &mut BTreeMap<&'static str, u64>) {
-    let budget = crash_budget(prop);
+    let mut budget = crash_budget(prop);
+    // judging one image costs in proportion to its size: big host files
+    // (the 8..32 MiB growth histories) get a smaller share
+    let flen = w.sim.file_content(w.files[0]).len();
+    if flen > (6 << 20) {
+        budget.max_points = budget.max_points / 3;
+        budget.max_images = budget.max_images / 6;
+        budget.max_opens = budget.max_opens / 4;
+    }
     let reqs = w.sim.core.reqs.borrow().clone();
     let bs = 1u64 << w.cfg.bs_bits;
     let tl = Timeline::new(&reqs, w.files[0], w.initial_file.clone(), bs, w.cfg.early_visible);
